@@ -26,7 +26,7 @@ FINDINGS = [("pendrel", "jpim_s", ["C10_Free"])]
 def run(ctx):
     from checks import _drivermem
 
-    B.run_property(ctx, "C10", INVARIANTS, PROPERTIES, QUICK, THOROUGH, FINDINGS, budget_quick=30)
+    B.run_property(ctx, "C10", INVARIANTS, PROPERTIES, QUICK, THOROUGH, FINDINGS, budget_quick=30, overlap=['retry_s'])
     # second stage: the driver's in-memory copy (real Instance objects + real job.py wrappers) against DriverMem
     steps, walks = _drivermem.run_memory_stage(ctx)
     ctx.cov["evaluations"] += steps
